@@ -40,7 +40,7 @@ def run(ctx, R, tier):
                      "only on the true edge of _handshake; selector.register sites are frozen", floor=5)
     R.rule("C08-R4", "_handshake: accepts only MSG_CONNECT; returns true only for the CONNECTOK it sent; CONNECTOK is stored only after the "
                      "denied-reason guard, the validator and the lookup of the requested object; silent failure only for ConnectionClosedError", floor=8)
-    R.rule("C08-R5", "the request receiver accepts exactly [MSG_INVOKE, MSG_PING]", floor=1)
+    R.rule("C08-R5", "the request receiver accepts exactly [MSG_INVOKE, MSG_PING]; the type filter itself is sound (shared C03-R7); the client reads the connect answer with the answer's serializer", floor=3)
 
     # ---------------------------------------------------------------- R1
     allowed_handle = {
@@ -271,6 +271,25 @@ def run(ctx, R, tier):
                 "errors of class %s end the handshake without a CONNECTFAIL answer although the peer is still connected" % classes)
 
     # ---------------------------------------------------------------- R5
+    from ..report import Rules
+    from . import c03
+    R3 = Rules("C03")
+    c03.run(ctx, R3, tier)
+    for o in R3.obs:
+        if o.key == "C03-R7|recv_stub|filter-before-body":
+            R.add("C08-R5", "recv_stub|filter-before-body", o.desc + " (the handshake's [MSG_CONNECT] restriction is enforced there)", o.ok, o.loc, o.detail)
+    cah = ctx.fn("Pyro5.client.Proxy.__pyroCreateConnection.connect_and_handshake")
+    crd = ctx.rd(cah)
+    lds = [c for c, _ in ctx.cg.calls_of(cah) if isinstance(c.func, ast.Attribute) and c.func.attr == "loads" and isinstance(c.func.value, ast.Name)]
+    okl = bool(lds)
+    for c in lds:
+        for n in ctx.node_of(cah, c):
+            defs = crd.reaching(n, c.func.value.id)
+            if not (defs and all(d.kind == "assign" and d.value is not None and "serializers_by_id" in unparse(d.value) and "serializer_id" in unparse(d.value) for d in defs)):
+                okl = False
+    R.check(okl, "C08-R5", "client|handshake-reply-decoded-by-reply-serializer", "the client decodes the connect answer with the serializer named in that answer", cah.loc(),
+            "the connect answer is decoded with the proxy's own serializer: a connect-failure (always sent with the daemon's default serializer when the CONNECT could not be read or "
+            "was refused early) cannot be decoded, so the peer does not see the reason")
     h = ctx.fn(HANDLE)
     rc = ctx.calls_to(h, "Pyro5.protocol.recv_stub")
     if len(rc) != 1:
